@@ -25,7 +25,7 @@ EMU = {'DER': {'real-nr3-nodot', 'emptyable-optional', 'time-fraction-zeros', 'r
 
 
 def plan(tier, seed):
-    return C.plan_counts(tier, 16 * 3500, 16 * 60000)
+    return C.plan_counts(tier, 16 * 10000, 16 * 60000)
 
 
 def locate_difference(T, ref, got):
